@@ -513,6 +513,20 @@ def run(ctx: Any, prog: Program) -> None:
                               'smallest level first, so a level is rebuilt from a parent that is still blank', func='VTF.compute_mipmaps', text='mipmap chain')
                 else:
                     ctx.shape('C15.F5', False, vtf, loops[0], f'level iteration `{its[:60]}` is not an enumerated increasing order', func='VTF.compute_mipmaps', text='mipmap chain')
+    # F1 (resource ids): the three id bytes read from the table are the key under which the entry is stored - as they are, or as the
+    # ResourceID member they name.  Any byte-string "clean-up" (rstrip(b'\\0'), strip, lower) changes custom ids that the writer packs verbatim.
+    rd_ = vm['read']
+    id_unpacks = [a for a in ast.walk(rd_) if isinstance(a, ast.Assign) and isinstance(a.targets[0], (ast.List, ast.Tuple)) and isinstance(a.value, ast.Call) and dotted(a.value.func) in ('struct.unpack', 'unpack')
+                  and a.value.args and isinstance(a.value.args[0], ast.Constant) and '3s' in str(a.value.args[0].value) and isinstance(a.targets[0].elts[0], ast.Name)]
+    if len(id_unpacks) != 1:
+        ctx.shape('C15.F1', False, vtf, rd_, 'the resource table entry unpack (`<3sBI`) was not found in VTF.read', func='VTF.read', text='resource id stored as read')
+    else:
+        idv = id_unpacks[0].targets[0].elts[0].id
+        re_assigns = [a for a in ast.walk(rd_) if isinstance(a, ast.Assign) and a is not id_unpacks[0] and any(isinstance(t, ast.Name) and t.id == idv for t in a.targets)
+                      and a.lineno > id_unpacks[0].lineno and any(isinstance(x, ast.Name) and x.id == idv for x in ast.walk(a.value))]
+        bad = [a for a in re_assigns if not (isinstance(a.value, ast.Call) and dotted(a.value.func) == 'ResourceID')]
+        ctx.check('C15.F1', not bad, vtf, bad[0] if bad else id_unpacks[0], (f'VTF.read rewrites the resource id it read (`{ast.unparse(bad[0])[:60]}`) before using it as key: save() packs custom ids verbatim with `3s`, so an id that '
+                  'legitimately ends in a NUL byte (b"AB\\0") comes back under a different key') if bad else 'id used as read / as ResourceID member', func='VTF.read', text='resource id stored as read')
     # ---- F6 --------------------------------------------------------------------------------------------------
     sm = vtf.methods('SheetSequence')
     fr_, mk = sm['from_resource'], sm['make_data']
@@ -628,6 +642,7 @@ def accepted_region(test: ast.AST) -> Dict[Tuple[str, str], str]:
 
 
 MUTANTS: List[Dict[str, Any]] = [
+    {'id': 'custom_resource_id_stripped', 'file': 'vtf.py', 'find': "                        pass  # Custom.", 'replace': "                        res_id = res_id.rstrip(b'\\0')", 'expect': 'C15.F1'},
     {'id': 'mipmaps_rebuilt_in_table_order', 'file': 'vtf.py', 'find': "                for mipmap in range(1, self.mipmap_count):\n                    frm = self._frames[frame_num, depth_side, mipmap]\n                    if frm._data is None:", 'replace': "                for (f2, d2, mipmap), frm in self._frames.items():\n                    if f2 != frame_num or d2 != depth_side or mipmap == 0:\n                        continue\n                    if frm._data is None:", 'expect': 'C15.F5'},
     # repaired variants: the known findings must disappear (shows the rule describes the defect, not the code's style)
     {'id': 'repair_mipmap_count', 'file': 'vtf.py', 'find': "        self.mipmap_count = mip_count\n", 'replace': "        self.mipmap_count = mip_count + 1\n", 'expect': None, 'repairs': ['VTF.__init__']},
